@@ -690,6 +690,53 @@ func nttToyLazy(p2 []uint64, N int, Q, MRedConstant uint64, roots []uint64) {
 	}
 }
 
+// NTTSCHED control: the generic and the "fast" implementation of one transform disagree on the twiddle of the last layer
+func SchedToy(p1, p2 []uint64, N int, Q, MRedConstant uint64, roots []uint64) {
+	if N < 16 {
+		schedToyGeneric(p1, p2, N, Q, MRedConstant, roots)
+	} else {
+		schedToyFast(p1, p2, N, Q, MRedConstant, roots)
+	}
+}
+
+func schedToyGeneric(p1, p2 []uint64, N int, Q, MRedConstant uint64, roots []uint64) {
+	twoQ, fourQ := 2*Q, 4*Q
+	t := N >> 1
+	for j := 0; j < t; j++ {
+		p2[j], p2[j+t] = butterfly(p1[j], p1[j+t], roots[1], twoQ, fourQ, Q, MRedConstant)
+	}
+	for m := 2; m < N; m <<= 1 {
+		t >>= 1
+		for i := 0; i < m; i++ {
+			j1 := 2 * i * t
+			for j := j1; j < j1+t; j++ {
+				p2[j], p2[j+t] = butterfly(p2[j], p2[j+t], roots[m+i], twoQ, fourQ, Q, MRedConstant)
+			}
+		}
+	}
+}
+
+func schedToyFast(p1, p2 []uint64, N int, Q, MRedConstant uint64, roots []uint64) {
+	twoQ, fourQ := 2*Q, 4*Q
+	t := N >> 1
+	for j := 0; j < t; j++ {
+		p2[j], p2[j+t] = butterfly(p1[j], p1[j+t], roots[1], twoQ, fourQ, Q, MRedConstant)
+	}
+	for m := 2; m < N; m <<= 1 {
+		t >>= 1
+		h := m
+		if t == 1 {
+			h = m >> 1
+		}
+		for i := 0; i < m; i++ {
+			j1 := 2 * i * t
+			for j := j1; j < j1+t; j++ {
+				p2[j], p2[j+t] = butterfly(p2[j], p2[j+t], roots[h+i], twoQ, fourQ, Q, MRedConstant)
+			}
+		}
+	}
+}
+
 // ERRSTORE control: the failed product stays in the cache
 type powCache struct{ vals map[int]*big.Int }
 
